@@ -12,6 +12,7 @@ func TestVerifReplay(t *testing.T) {
 		"Verif_C09_TemplateUTF8": Verif_C09_TemplateUTF8,
 		"Verif_C09_TemplateLong": Verif_C09_TemplateLong,
 		"Verif_C09_SprintfLong":  Verif_C09_SprintfLong,
+		"Verif_C09_LongName":     Verif_C09_LongName,
 		"Verif_C09_Sprintf":      Verif_C09_Sprintf,
 		"Verif_C09_Comment":      Verif_C09_Comment,
 		"Verif_C09_GoDirective":  Verif_C09_GoDirective,
